@@ -195,9 +195,17 @@ func errClass(err error) int {
 	return 3
 }
 
+// hangs seen so far per sub-kind: after two, the sub-kind is not run any more (every hang costs
+// the whole watchdog and leaks the pipeline's goroutines)
+var faultHangs [3]int
+
 func kindFault(w *rec.Writer, seed uint64) {
 	r := rec.NewRand(seed)
 	sub := 1 + r.Intn(2)
+	if faultHangs[sub] >= 2 {
+		w.Stat(fmt.Sprintf("fault_sub%d_skipped_after_hangs", sub), 1)
+		return
+	}
 	st := &synthStore{index: map[string][]string{}, mode: sub, reached: make(chan struct{}), release: make(chan struct{})}
 	add := func(obj, rel, user string) {
 		t := strings.SplitN(obj, ":", 2)[0]
@@ -212,6 +220,11 @@ func kindFault(w *rec.Writer, seed uint64) {
 		dsl = dslFolder
 		spec = pipeline.Spec{ObjectType: "folder", ObjectRelation: "viewer", SubjectType: "user", SubjectID: "u1"}
 		add("folder:0", "viewer", "user:u1")
+		// further roots: with chunk size 1 several messages travel on the cyclical edge at once
+		for j := r.Intn(3); j > 0; j-- {
+			add(fmt.Sprintf("folder:r%d", j), "viewer", "user:u1")
+			add(fmt.Sprintf("folder:c%d", j), "parent", fmt.Sprintf("folder:r%d", j))
+		}
 		nf := r.Range(2, 9)
 		for i := 1; i < nf; i++ {
 			add(fmt.Sprintf("folder:%d", i), "parent", fmt.Sprintf("folder:%d", r.Intn(i)))
@@ -253,8 +266,8 @@ func kindFault(w *rec.Writer, seed uint64) {
 		w.Stat("fault_build_error", 1)
 		return
 	}
-	hang, cls, nobj := 0, 0, 0
-	const watchdog = 15 * time.Second
+	hang, cls, nobj, stalled := 0, 0, 0, 0
+	const watchdog = 10 * time.Second
 	if sub == 1 {
 		// consume everything, close, look at the error
 		done := make(chan error, 1)
@@ -271,9 +284,18 @@ func kindFault(w *rec.Writer, seed uint64) {
 		select {
 		case e := <-done:
 			cls = errClass(e)
-		case <-time.After(watchdog):
-			hang = 1
+		case <-time.After(4 * time.Second):
+			// the consumer is parked in Recv although the fault has been reported: the pipeline
+			// does not close itself.  The request context is cancelled (what the ListObjects
+			// deadline does); after that teardown has to complete.
+			stalled = 1
 			cancel()
+			select {
+			case e := <-done:
+				cls = errClass(e)
+			case <-time.After(watchdog):
+				hang = 1
+			}
 		}
 		close(st.release)
 	} else {
@@ -315,11 +337,15 @@ func kindFault(w *rec.Writer, seed uint64) {
 		}
 	}
 	fired := st.fired.Load()
+	faultHangs[sub] += hang
 	w.Stat(fmt.Sprintf("fault_sub%d_cases", sub), 1)
 	if fired {
 		w.Stat(fmt.Sprintf("fault_sub%d_fired", sub), 1)
 	}
 	w.Stat(fmt.Sprintf("fault_errclass_%d", cls), 1)
+	if stalled == 1 {
+		w.Stat(fmt.Sprintf("fault_sub1_stalled_until_cancel_procs%d", cfg.Procs), 1)
+	}
 	w.Case(map[string]any{"kind": 5, "seed": seed}, rec.I(5), rec.I(sub), rec.Bool(fired), rec.I(hang), rec.I(cls),
-		rec.I(variant), rec.I(int(st.k)), rec.I(cfg.Chunk), rec.I(cfg.Buf), rec.I(cfg.Procs))
+		rec.I(stalled), rec.I(variant), rec.I(int(st.k)), rec.I(cfg.Chunk), rec.I(cfg.Buf), rec.I(cfg.Procs))
 }
